@@ -177,6 +177,63 @@ def tr_lookup(fn, param, first):
   return '(hd_error %s)' % lst if first else lst
 
 
+def tr_labelled_sets(tree):
+  """SubBalancedDeviceSet._labelled_sets (+ the two lines of __init__ that unpack it): an ordered dictionary of the leaf labels, for each
+  label of self.labels the rows whose key matches '.*{label}$' (the matcher is the section parameter), collected in a dict keyed by label,
+  and the remaining rows as a set updated with difference_update."""
+  try:
+    cls = next(n for n in tree.body if isinstance(n, ast.ClassDef) and n.name == 'SubBalancedDeviceSet')
+  except StopIteration:
+    raise Unsupported('?:Module:class SubBalancedDeviceSet not found')
+  fns = {f.name: f for f in cls.body if isinstance(f, ast.FunctionDef)}
+  init = fns.get('__init__') or U(cls, 'constructor')
+  src = [un(x) for x in init.body]
+  if 'self.labelled_sets, self.unlabelled_set = self._labelled_sets()' not in src or 'self.labelled_sets = list(self.labelled_sets.values())' not in src or \
+     'self.labels = labels' not in src:
+    U(init, 'constructor does not store the label sets as (values of the dict, list of the rest)')
+  fn = fns.get('_labelled_sets') or U(cls, '_labelled_sets')
+  b = nodoc(fn.body)
+  if len(b) != 5:
+    U(fn, 'body')
+  if un(b[0]) != 'leaf_devices = OrderedDict(self.leaf_devices())' or un(b[1]) != 'labelled = {}' or un(b[2]) != 'unlabelled = set(range(len(leaf_devices)))':
+    U(fn, 'prologue')
+  loop, ret = b[3], b[4]
+  if not (isinstance(loop, ast.For) and not loop.orelse and isinstance(loop.target, ast.Name) and un(loop.iter) == 'self.labels' and len(loop.body) == 2):
+    U(loop, 'loop')
+  lab = loop.target.id
+  a, u = loop.body
+  if not (isinstance(a, ast.Assign) and un(a.targets[0]) == 'labelled[%s]' % lab and isinstance(a.value, ast.ListComp) and len(a.value.generators) == 1):
+    U(a, 'rows of a label')
+  g = a.value.generators[0]
+  if not (isinstance(g.target, ast.Tuple) and len(g.target.elts) == 2 and all(isinstance(x, ast.Name) for x in g.target.elts) and
+          un(g.iter) == 'enumerate(leaf_devices.keys())' and len(g.ifs) == 1):
+    U(g, 'generator')
+  k, v = (x.id for x in g.target.elts)
+  if un(a.value.elt) == k:
+    pick = 'fst'
+  else:
+    U(a, 'element %s' % un(a.value.elt))
+  t = g.ifs[0]
+  if not (isinstance(t, ast.Call) and un(t.func) == 're.match' and len(t.args) == 2 and un(t.args[1]) == v and isinstance(t.args[0], ast.Call) and
+          isinstance(t.args[0].func, ast.Attribute) and t.args[0].func.attr == 'format' and isinstance(t.args[0].func.value, ast.Constant) and
+          {kw.arg: un(kw.value) for kw in t.args[0].keywords} == {'label': lab} and not t.args[0].args):
+    U(t, 'test')
+  fmt = t.args[0].func.value.value
+  if fmt.count('{label}') != 1 or '"' in fmt:
+    U(t, 'pattern %r' % fmt)
+  pre, post = fmt.split('{label}')
+  pat = '(String.append "%s" (String.append %s "%s"))' % (pre, lab, post)
+  if un(u) != 'unlabelled.difference_update(labelled[%s])' % lab:
+    U(u, 'update of the rest')
+  if un(ret) != 'return (labelled, list(unlabelled))':
+    U(ret, 'result')
+  return ("(let leaf_devices := as_dict leafs in let labelled := [] in let unlabelled := seq 0 (List.length leaf_devices) in "
+          "let st := fold_left (fun st %s => let labelled := fst st in let unlabelled := snd st in "
+          "let labelled := dict_set %s (map %s (filter (fun kv => let %s := fst kv in let %s := snd kv in rematch %s %s) (enum (map fst leaf_devices)))) labelled in "
+          "let unlabelled := set_minus unlabelled (dict_get [] %s labelled) in (labelled, unlabelled)) labels (labelled, unlabelled) in "
+          "(map snd (fst st), snd st))" % (lab, lab, pick, k, v, pat, v, lab))
+
+
 def gen_basedevice(repo):
   fname = os.path.join(repo, 'device_kit', 'basedevice.py')
   out = ['(* GENERATED by translator/basedevice_tx.py from device_kit/basedevice.py -- do not edit. *)',
@@ -220,6 +277,17 @@ def gen_basedevice(repo):
   emit('get', 'get_gen', '(leafs : list (string * X)) (name : string) : option X', lambda f: tr_lookup(f, 'name', True), 'get_in leafs name')
   emit('find', 'find_gen', '(leafs : list (string * X)) (regexp : string) : list X', lambda f: tr_lookup(f, 'regexp', False),
        'map snd (filter (fun kv => rematch regexp (fst kv)) (as_dict leafs))')
+  # SubBalancedDeviceSet._labelled_sets (device_kit/subbalanceddeviceset.py)
+  try:
+    t2 = ast.parse(open(os.path.join(repo, 'device_kit', 'subbalanceddeviceset.py')).read())
+    body = tr_labelled_sets(t2)
+    translated.append('labelled_sets_gen')
+    out.append('(* subbalanceddeviceset.py: SubBalancedDeviceSet._labelled_sets *)')
+  except (Unsupported, SyntaxError, OSError) as e:
+    body = '(let _ := rematch in (labelled_sets (map fst (as_dict leafs)) labels, unlabelled_set (map fst (as_dict leafs)) labels))'
+    untranslated.append('labelled_sets_gen')
+    out.append('(* subbalanceddeviceset.py: SubBalancedDeviceSet._labelled_sets NOT TRANSLATED (%s): alias of the hand-written model, tie falls back to the correspondence *)' % str(e).replace('*)', '* )'))
+  out.append('Definition labelled_sets_gen (leafs : list (string * X)) (labels : list string) : list (list nat) * list nat :=\n  %s.\n' % body)
   out.append('End GenBaseDevice.')
   out.append('Definition basedevice_translated : list String.string := [%s]%%string.' % '; '.join('"%s"' % x for x in translated))
   out.append('Definition basedevice_untranslated : list String.string := [%s]%%string.' % '; '.join('"%s"' % x for x in untranslated))
